@@ -1,6 +1,7 @@
 (* C02 -- every waiter gets an event's outcome exactly once; failures are never lost.
    Only statements, closed by the lemma that proves them, and their assumptions.  Proofs: Kernel/Deliver.v (facts that hold in
-   every state), DeliverInv.v (the waiter invariant), DeliverWf.v (well-formedness in every execution), DeliverThm.v.
+   every state), DeliverInv.v (the waiter invariant), DeliverWf.v (well-formedness in every execution), DeliverThm.v,
+   DeliverVal.v (outcomes do not change between trigger and delivery), DeliverMore.v.
 
    All theorems are about Kernel/Model.v: [step], [run_loop], [run_cb], [resume_loop], [call_succeed], [call_fail] ... and hold
    for every table of process automata [codes : list prog] (any number of processes, any state types, any arguments).
@@ -9,18 +10,20 @@
      later codes s s'      s' is reached from s by any sequence of module-level code (exec_top), step() and run(), with any fuel
                            and whatever they return.
      creach codes s        s is reached from an initial state by module-level code, the prelude of run() (the stop callback is
-                           appended) and CLEAN steps -- steps whose callback loop ran to its end or was ended by the stop
-                           callback of run(until) as its last callback (step_clean).  A step that raises the undefused failure
-                           of its event after the loop is clean; an exception escaping from the MIDDLE of the loop (an invalid
-                           yield, StopSimulation with callbacks behind it) makes the real kernel drop the remaining callbacks,
-                           and nothing is claimed after it (DESIGN.md section 4, hypothesis (ii)).
-     cb_chain fuel codes e l s s'   the callbacks l were invoked for event e, in list order, each once, each returning normally,
-                           taking the state from s to s'.
+                           appended) and CLEAN steps -- steps whose callback loop ran through all callbacks (step_clean).  A step
+                           that raises the undefused failure of its event, or the remembered stop of run(until), after the loop
+                           is clean; an exception escaping from the MIDDLE of the loop (an invalid yield, an interrupt of a
+                           process whose target is being processed) makes the real kernel drop the remaining callbacks, and
+                           nothing is claimed after it (DESIGN.md section 4, hypothesis (ii)).
+     cb_chain fuel codes e l s s'   the callbacks l were invoked for event e, in list order, each once, none ending the loop
+                           (cb_ok: the callback returned, or it is the stop callback of run(until) whose StopSimulation /
+                           failure step() remembers and raises after the loop -- the repaired step()), from state s to s'.
      loop_start m rest s   the state in which the callback loop of the step that pops agenda entry m starts.
      cnt p l               number of occurrences of CbResume p in l.
      after_frag, feed_state   what Process._resume does after / before running the generator (Kernel/Deliver.v). *)
 From Coq Require Import ZArith QArith List.
-From ONL Require Import Kernel.Model Kernel.Keys Kernel.Deliver Kernel.DeliverInv Kernel.DeliverWf Kernel.DeliverThm.
+From ONL Require Import Kernel.Model Kernel.Keys Kernel.Deliver Kernel.DeliverInv Kernel.DeliverWf Kernel.DeliverThm
+  Kernel.DeliverVal Kernel.DeliverMore.
 Import ListNotations.
 Local Open Scope nat_scope.
 
@@ -33,9 +36,11 @@ Theorem C02_callbacks_exactly_once : forall fuel codes s s' r m rest ev l,
   step fuel codes s = (s', r) -> pop_min (agenda s) = Some (m, rest) ->
   get_event (e_ev m) s = Some ev -> cbs ev = Some l ->
   get_event (e_ev m) (loop_start m rest s) = Some (ev_set_cbs None ev) /\
-  ((cb_chain fuel codes (e_ev m) l (loop_start m rest s) s' /\ r = check_failure (e_ev m) s') \/
+  ((cb_chain fuel codes (e_ev m) l (loop_start m rest s) s' /\
+    (r = check_failure (e_ev m) s' \/ is_exit r = true) /\
+    ((forall c, In c l -> is_stop_cb c = false) -> r = check_failure (e_ev m) s')) \/
    (exists pre c post smid, l = pre ++ c :: post /\ cb_chain fuel codes (e_ev m) pre (loop_start m rest s) smid /\
-                            run_cb fuel codes (e_ev m) c smid = (s', r) /\ r <> ROk)) /\
+                            run_cb fuel codes (e_ev m) c smid = (s', r) /\ ~ cb_ok c r)) /\
   (forall s'', later codes s' s'' -> exists ev'', get_event (e_ev m) s'' = Some ev'' /\ cbs ev'' = None).
 Proof. exact callbacks_exactly_once. Qed.
 Print Assumptions C02_callbacks_exactly_once.
@@ -96,11 +101,16 @@ Theorem C02_waiter_invariant_inside_loop : forall codes fuel s m rest ev pre pos
   creach codes s -> get_event (e_ev m) s = Some ev -> cbs ev = Some (pre ++ post) ->
   cb_chain fuel codes (e_ev m) pre (loop_start m rest s) smid ->
   winv (Some (e_ev m, post)) None smid.
-Proof.
-  intros codes fuel s m rest ev pre post smid R G C Ch.
-  exact (winv_chain codes fuel (e_ev m) pre post _ _ (winv_loop_start m rest s ev _ (proj1 (creach_inv _ _ R)) G C) Ch).
-Qed.
+Proof. exact waiter_invariant_inside_loop. Qed.
 Print Assumptions C02_waiter_invariant_inside_loop.
+
+Theorem C02_clean_states_wellformed : forall codes s, creach codes s -> winv None None s /\ uinv s.
+Proof. exact clean_states_wellformed. Qed.
+Print Assumptions C02_clean_states_wellformed.
+
+Theorem C02_clean_executions_are_executions : forall codes s, creach codes s -> exists t0, later codes (init_state t0) s.
+Proof. exact creach_later. Qed.
+Print Assumptions C02_clean_executions_are_executions.
 
 (* clean executions: closed under run() whose steps are clean; every step that returns normally is clean *)
 Theorem C02_creach_run : forall codes fuel u s,
@@ -141,6 +151,49 @@ Theorem C02_resume_turn : forall f codes p e s ev pr o,
 Proof. exact resume_loop_eq. Qed.
 Print Assumptions C02_resume_turn.
 
+(* "v = the value of e": for every kind of event except Process events and conditions (whose value is set by the generator's
+   end / built by the condition's own first callback) the outcome an event got when it was triggered is the outcome it has in
+   every later state of every execution ... *)
+Theorem C02_value_stable : forall codes t0 s s' e ev o,
+  later codes (init_state t0) s -> later codes s s' ->
+  get_event e s = Some ev -> stable_kind (kind ev) = true -> out ev = Some o ->
+  exists ev', get_event e s' = Some ev' /\ out ev' = Some o.
+Proof. exact value_stable. Qed.
+Print Assumptions C02_value_stable.
+
+(* ... and between the callbacks of a step, during which the clock stands still ... *)
+Theorem C02_value_stable_in_loop : forall fuel codes t0 s m rest pre smid,
+  later codes (init_state t0) s -> pop_min (agenda s) = Some (m, rest) ->
+  cb_chain fuel codes (e_ev m) pre (loop_start m rest s) smid ->
+  now smid = e_time m /\
+  forall e ev o, get_event e s = Some ev -> stable_kind (kind ev) = true -> out ev = Some o ->
+                 exists ev', get_event e smid = Some ev' /\ out ev' = Some o.
+Proof. exact value_stable_in_loop. Qed.
+Print Assumptions C02_value_stable_in_loop.
+
+(* ... so each waiter is fed the outcome the event had when the step began (= when it was triggered), at the event's time *)
+Theorem C02_delivered_is_triggered_outcome : forall fuel codes s m rest ev pre p post smid o,
+  creach codes s -> pop_min (agenda s) = Some (m, rest) -> get_event (e_ev m) s = Some ev ->
+  cbs ev = Some (pre ++ CbResume p :: post) ->
+  cb_chain (S fuel) codes (e_ev m) pre (loop_start m rest s) smid ->
+  stable_kind (kind ev) = true -> out ev = Some o ->
+  exists pr, get_proc p smid = Some pr /\ ptarget pr = Some (e_ev m) /\ now smid = e_time m /\
+    run_cb (S fuel) codes (e_ev m) (CbResume p) smid =
+      after_frag fuel codes p pr
+        (run_frag codes (resume (pcode pr) (pst pr) o) (feed_state (e_ev m) o (set_active (Some p) smid))).
+Proof. exact delivered_is_triggered_outcome. Qed.
+Print Assumptions C02_delivered_is_triggered_outcome.
+
+(* env.timeout(d, v) with d >= 0 creates a triggered event with outcome Ok v, due at now + d *)
+Theorem C02_timeout_carries_value : forall d v s,
+  neg_delay d = false ->
+  let e := length (events s) in
+  exists s', call_timeout d v s = (s', Ok (VEv e)) /\
+    get_event e s' = Some (mkEvent (Some []) (Some (Ok v)) false KTimeout) /\
+    agenda s' = agenda s ++ [mkEntry (Qred (now s + d)%Q) NORMAL (next_eid s) e].
+Proof. exact timeout_carries_value. Qed.
+Print Assumptions C02_timeout_carries_value.
+
 (* ---- yield_processed_continues ---------------------------------------------------------------------------------------- *)
 
 (* The generator yields an event e' that is already processed: no callback is registered, _resume does not return, the loop
@@ -156,6 +209,16 @@ Theorem C02_yield_processed_continues : forall f codes p e s ev pr o s2 e' a ev'
     after_frag f codes p (proc_set_st pr a) (run_frag codes (resume (pcode pr) a o') (feed_state e' o' s3)).
 Proof. exact yield_processed_continues. Qed.
 Print Assumptions C02_yield_processed_continues.
+
+(* a process that is not waiting for the processed event is left alone: same automaton state, same target, whatever the step
+   does and returns (an Interruption event is the one exception, C04) *)
+Theorem C02_not_resumed_by_other_events : forall fuel codes s q prq t m rest ev l,
+  creach codes s -> get_proc q s = Some prq -> ptarget prq = Some t ->
+  pop_min (agenda s) = Some (m, rest) -> get_event (e_ev m) s = Some ev -> cbs ev = Some l ->
+  e_ev m <> t -> (forall c, In c l -> is_interrupt_cb c = false) ->
+  get_proc q (fst (step fuel codes s)) = Some prq.
+Proof. exact not_resumed_by_other_events. Qed.
+Print Assumptions C02_not_resumed_by_other_events.
 
 (* a pending event instead: the process is appended to its callbacks and _resume returns *)
 Theorem C02_yield_pending_waits : forall f codes p e s ev pr o s2 e' a ev' l,
@@ -209,16 +272,13 @@ Print Assumptions C02_triggered_forever.
 (* well-formedness in EVERY execution (also across exceptions escaping from anywhere): agenda entries name existing triggered
    events, every process has its Process event; it is kept by every callback and every module-level call *)
 Theorem C02_wellformed_always : forall codes t0 s, later codes (init_state t0) s -> uinv s.
-Proof. intros codes t0 s L. exact (uinv_later codes _ _ L (uinv_init t0)). Qed.
+Proof. exact wellformed_always. Qed.
 Print Assumptions C02_wellformed_always.
 
 Theorem C02_wellformed_inside_step : forall fuel codes s m rest pre smid p,
   uinv s -> pop_min (agenda s) = Some (m, rest) -> cb_chain fuel codes (e_ev m) pre (loop_start m rest s) smid ->
   uinv (set_active (Some p) smid).
-Proof.
-  intros fuel codes s m rest pre smid p U P Ch.
-  exact (uinv_set_active _ _ (uinv_cb_chain _ _ _ _ _ _ Ch (uinv_loop_start m rest s P U))).
-Qed.
+Proof. exact wellformed_inside_step. Qed.
 Print Assumptions C02_wellformed_inside_step.
 
 (* When the automaton returns v / raises x, _resume triggers the process's own event with exactly that outcome, scheduled
@@ -238,13 +298,16 @@ Print Assumptions C02_process_event_outcome.
 
 (* ---- failure_never_lost ----------------------------------------------------------------------------------------------- *)
 
-(* In every execution: when every callback of the processed event returned, the event has an outcome (no RBroken), and
-   step() returns normally iff it succeeded or its failure was defused; otherwise step() raises exactly that exception. *)
+(* In every execution: when every callback of the processed event was invoked, the event has an outcome (no RBroken), and
+   step() returns normally iff it succeeded or its failure was defused; otherwise step() raises exactly that exception.
+   (Stated for events that are not the until-event of the running run(): for that one the remembered stop is raised -- the
+   value, or the failure itself whether defused or not; C02_undefused_without_handler covers it, the rest is C03.) *)
 Theorem C02_failure_never_lost : forall fuel codes t0 s s' r m rest ev l,
   later codes (init_state t0) s ->
   step fuel codes s = (s', r) -> pop_min (agenda s) = Some (m, rest) ->
   get_event (e_ev m) s = Some ev -> cbs ev = Some l ->
   cb_chain fuel codes (e_ev m) l (loop_start m rest s) s' ->
+  (forall c, In c l -> is_stop_cb c = false) ->
   exists ev', get_event (e_ev m) s' = Some ev' /\
     match out ev' with
     | Some (Fail x) => if defused ev' then r = ROk else r = RRaise x
@@ -253,6 +316,41 @@ Theorem C02_failure_never_lost : forall fuel codes t0 s s' r m rest ev l,
     end.
 Proof. exact failure_never_lost. Qed.
 Print Assumptions C02_failure_never_lost.
+
+(* the converse: `defused` is set in exactly two places -- (1) Process._resume, on the failed event it throws into the generator,
+   before throwing; (2) Condition._check, on a failed operand whose exception the still pending condition takes over -- *)
+Theorem C02_feed_defuses : forall e o s x,
+  defused_at (feed_state e o s) x =
+  match o with Fail _ => if Nat.eqb x e then option_map (fun _ => true) (get_event x s) else defused_at s x | Ok _ => defused_at s x end.
+Proof. exact feed_defuses. Qed.
+Print Assumptions C02_feed_defuses.
+
+Theorem C02_cond_check_defuses : forall c op s x,
+  defused_at (cond_check c op s) x <> defused_at s x ->
+  x = op /\ exists cev oev fx cev',
+    get_event c s = Some cev /\ out cev = None /\ get_event op s = Some oev /\ out oev = Some (Fail fx) /\
+    get_event c (cond_check c op s) = Some cev' /\ out cev' = Some (Fail fx).
+Proof. exact cond_check_defuses. Qed.
+Print Assumptions C02_cond_check_defuses.
+
+(* -- callbacks that are neither a resumption, an interruption nor a condition check change no `defused` mark -- *)
+Theorem C02_only_handlers_defuse : forall fuel codes e c s,
+  is_handler c = false -> forall x, defused_at (fst (run_cb fuel codes e c s)) x = defused_at s x.
+Proof. exact only_handlers_defuse. Qed.
+Print Assumptions C02_only_handlers_defuse.
+
+(* -- hence a failed event with no process, interrupt or condition among its callbacks (probes, the stop callback ...) is
+   undefused after the loop and step() raises its exception, at the event's time *)
+Theorem C02_undefused_without_handler : forall fuel codes t0 s s' r m rest ev l x,
+  later codes (init_state t0) s ->
+  step fuel codes s = (s', r) -> pop_min (agenda s) = Some (m, rest) ->
+  get_event (e_ev m) s = Some ev -> cbs ev = Some l -> out ev = Some (Fail x) -> defused ev = false ->
+  stable_kind (kind ev) = true ->
+  (forall c, In c l -> is_handler c = false) ->
+  cb_chain fuel codes (e_ev m) l (loop_start m rest s) s' ->
+  r = RRaise x /\ now s' = e_time m.
+Proof. exact undefused_without_handler. Qed.
+Print Assumptions C02_undefused_without_handler.
 
 (* the state such a step leaves is a clean state again: the invariants hold and execution may go on *)
 Theorem C02_failure_leaves_clean_state : forall fuel codes s m rest ev l s',
@@ -276,5 +374,5 @@ Theorem C02_run_returns_a_step_result : forall fuel codes u n s s' r,
   (r = RFuel /\ ok_steps fuel codes s s') \/
   (exists sk rk, ok_steps fuel codes s sk /\ step fuel codes sk = (s', rk) /\ rk <> ROk /\
                  r = match rk with REmpty => run_empty u s' | _ => rk end).
-Proof. intros fuel codes u n. exact (run_loop_spec fuel codes u n). Qed.
+Proof. exact run_loop_spec. Qed.
 Print Assumptions C02_run_returns_a_step_result.
